@@ -56,6 +56,11 @@ func Gen(t *rapid.T) Case {
 	c.Salt = rapid.Uint64().Draw(t, "salt")
 	c.Cfg.UDP = true
 	c.Cfg.NoWait = rapid.Bool().Draw(t, "noWait")
+	// one case in three: the application uses the session layer directly and
+	// re-uses its write buffers (see e2e.Config.RawClient); it writes first
+	if rapid.IntRange(0, 2).Draw(t, "rawClient") == 0 {
+		c.Cfg.RawClient, c.Cfg.NoWait = true, true
+	}
 	c.Cfg.Multiplex = rapid.IntRange(0, 4).Draw(t, "multiplex")
 	c.Cfg.ClientMTU = rapid.SampledFrom(mtus).Draw(t, "clientMTU")
 	c.Cfg.ServerMTU = rapid.SampledFrom(mtus).Draw(t, "serverMTU")
